@@ -29,7 +29,7 @@ def flat(prog, lim=1000000):
     return "\n".join(out) + "\n"
 
 
-def hist_cfg(maxlen, maxdim, ill, coef, opset):
+def hist_cfg(maxlen, maxdim, ill, coef, opset, recipe=False):
     ops = "{" + ", ".join('"%s"' % o for o in sorted(opset)) + "}" if opset else None
     return """CONSTANTS MaxLen = %d
  Slots = {1,2,3}
@@ -37,10 +37,11 @@ def hist_cfg(maxlen, maxdim, ill, coef, opset):
  IllShare = %d
  CoefMax = %d
  OpSet %s
+ Recipe = %s
 SPECIFICATION Spec
 CONSTRAINT EmitProg
 CHECK_DEADLOCK FALSE
-""" % (maxlen, maxdim, ill, coef, ("= " + ops) if ops else "<- AllOps")
+""" % (maxlen, maxdim, ill, coef, ("= " + ops) if ops else "<- AllOps", "TRUE" if recipe else "FALSE")
 
 
 def crash_class(op):
@@ -79,7 +80,7 @@ def run_pool(run, prop, plans, keep_prefixes, label="poly"):
     opc = {}
     for pl in plans:
         t0 = time.time()
-        progs = tracelib.gen_histories(run, SPEC, "PolyHist", hist_cfg(pl["maxlen"], pl["maxdim"], pl["ill"], pl["coef"], pl.get("opset")),
+        progs = tracelib.gen_histories(run, SPEC, "PolyHist", hist_cfg(pl["maxlen"], pl["maxdim"], pl["ill"], pl["coef"], pl.get("opset"), pl.get("recipe", False)),
                                        pl["num"], 2 * pl["maxlen"] + 2)
         if pl.get("cap"):
             progs = progs[:pl["cap"]]
